@@ -138,7 +138,10 @@ fn check_current<RootFd: AsFd, Fd: AsFd, P: AsRef<Path>>(
 // MSRV(1.80): Use LazyLock.
 static PROTECTED_SYMLINKS_SYSCTL: Lazy<u32> = Lazy::new(|| {
     utils::sysctl_read_parse(&GLOBAL_PROCFS_HANDLE, "fs.protected_symlinks")
-        .expect("should be able to parse fs.protected_symlinks")
+        // The sysctl may be unreadable (an unprivileged caller on a /proc
+        // mounted with subset=pid, for instance). Assume the restrictive
+        // setting rather than panicking inside a lookup.
+        .unwrap_or(1)
 });
 
 /// Verify that we should follow the symlink as per `fs.protected_symlinks`.
